@@ -22,10 +22,14 @@ def run(prop, tier, seed, replay=None):
             s4, t4, r4 = rc.model_check(work, "DagNames", ["MC_C18_names_excl.cfg"], workers=2)
             states, transitions, runs = states + s2 + s3 + s4, transitions + t2 + t3 + t4, runs + r2 + r3 + r4
         scenarios = []
+        extra_replay = False
         if replay:
             rp = json.load(open(replay))["replay"]
             if rp.get("scenario"):
                 scenarios.append(rp["scenario"])
+            # a violation of the save sweep or of the simultaneous-request stages: those stages are small and deterministic,
+            # the replay runs them whole
+            extra_replay = any(k in rp for k in ("kill", "pair_scenario", "names_scenario"))
         else:
             d = os.path.join(work, "sim")
             os.makedirs(d)
@@ -100,7 +104,7 @@ def run(prop, tier, seed, replay=None):
             rep.drift.append("spec=ApiControl %s action=%s real=%s/%s model=%s" % (dr["what"], json.dumps(dr["a"]), dr["resp"], dr["code"], json.dumps(dr["model"])))
         rep.cov["drift_actions"] = len(drifts)
         consumed2 = 0
-        if prop == "C18" and not replay:
+        if prop == "C18" and (not replay or extra_replay):
             rec = os.path.join(work, "save.ndjson")
             rc.run_vh(vh, ["savecrash", "-out", rec], env=dict(vp.GOENV, TMPDIR=work), timeout=1200)
             sv, consumed2 = rc.observe_records(work, "SaveCrashObserve", rec, nchunks=1)
